@@ -74,15 +74,31 @@ def evaluate_here(req):
     return ["ok", core.canon(r)]
 
 
-def _zygote_main(tree, rfd, wfd):
+SENSE = None       # simenv.EnvSense of the exec'ed "other process" zygote
+
+
+def _zygote_main(tree, rfd, wfd, other=False):
+    global SENSE
     sys.path.insert(0, tree)
+    if other:
+        # the "other process" also lives at another time (years ahead, every read of a clock a little later) and under
+        # an application that configured logging itself; reads of os.environ by library code are recorded
+        import logging
+        import simenv
+        prefix = os.path.join(os.path.abspath(tree), "simple_ddl_parser") + os.sep
+        simenv.install_datetime()
+        simenv.SimClock(prefix, wall=2_211_753_600.0 + 86400 * 211 + 7 * 3600, mono=9_000_000.0).install()
+        SENSE = simenv.EnvSense(prefix).install()
+        root = logging.getLogger()
+        root.addHandler(logging.NullHandler())
+        root.setLevel(logging.DEBUG)
     import simple_ddl_parser  # noqa: F401   (logging is left alone: fds 0-2 are /dev/null; the constructor's root config is real)
     try:
         import simple_ddl_parser.parsetab  # noqa: F401  (data only; builds no lexer / parser)
     except BaseException:  # noqa   a missing / broken cache is the library's business
         sys.modules.pop("simple_ddl_parser.parsetab", None)
     assert os.path.abspath(simple_ddl_parser.__file__).startswith(os.path.abspath(tree))
-    _write_msg(wfd, "ready")
+    _write_msg(wfd, ["ready", SENSE.take()] if SENSE is not None else "ready")
     while True:
         try:
             req = _read_msg(rfd)
@@ -95,7 +111,16 @@ def _zygote_main(tree, rfd, wfd):
                 os.close(r)
                 if req.get("cwd"):
                     os.chdir(req["cwd"])
+                for k, v in (req.get("env") or {}).items():
+                    if v is None:
+                        os.environ.pop(k, None)
+                    else:
+                        os.environ[k] = v
                 out = evaluate_here(req)
+                if SENSE is not None:
+                    keys = SENSE.take()
+                    if keys:
+                        out = ["sensed", [[k, os.environ.get(k)] for k in keys if k not in (req.get("env") or {})], out]
                 _write_msg(w, out)
             except BaseException as e:  # noqa
                 try:
@@ -120,7 +145,7 @@ class Reference:
     """Client side, lives in the worker.  Must be created before the worker builds any parser
     or starts any thread."""
 
-    def __init__(self, tree, cwd=None, hashseed=None, optimize=False):
+    def __init__(self, tree, cwd=None, hashseed=None, optimize=False, extra_env=None):
         self.tree = tree
         self.cwd = cwd
         self.memo = {}
@@ -130,6 +155,10 @@ class Reference:
         self.hashseed = hashseed
         self.optimize = False
         self.proc = None
+        self.env_keys_sensed = {}      # environment variable -> number of requests during which library code read it
+        self.env_flips = 0             # re-evaluations under a flipped variable
+        self.env_dependent = []        # [key, value it was flipped to] of requests whose outcome followed the variable
+        self.import_env = dict(extra_env or {})
         if hashseed is not None:
             # a zygote in a freshly exec'ed interpreter under ANOTHER hash seed: "in another process or
             # under a different hash seed yields an equal result"
@@ -137,11 +166,21 @@ class Reference:
             self.optimize = bool(optimize)
             self.proc = subprocess.Popen([sys.executable] + (["-O"] if optimize else []) + [os.path.abspath(__file__), "--zygote", tree],
                                          stdin=subprocess.PIPE, stdout=subprocess.PIPE, stderr=subprocess.DEVNULL,
-                                         env=core.worker_env(hashseed, OTHER_ENV))
+                                         env=core.worker_env(hashseed, dict(OTHER_ENV, **(extra_env or {}))))
             self.pid, self.wfd, self.rfd = self.proc.pid, self.proc.stdin.fileno(), self.proc.stdout.fileno()
             msg = _read_msg(self.rfd)
-            if msg != "ready":
+            if not (isinstance(msg, list) and msg and msg[0] == "ready"):
                 raise RuntimeError("zygote failed to start: %r" % (msg,))
+            if msg[1] and extra_env is None:
+                # library code read environment variables while it was imported: this "other process" is restarted with
+                # each of them flipped, so that every comparison with it is also a comparison across that variable
+                import simenv
+                for k in msg[1]:
+                    self.env_keys_sensed[k] = self.env_keys_sensed.get(k, 0) + 1
+                flips = {k: simenv.flipped(os.environ.get(k)) for k in msg[1]}
+                self.close()
+                self.__init__(tree, cwd=cwd, hashseed=hashseed, optimize=optimize, extra_env=flips)
+                self.env_keys_sensed = {k: 1 for k in flips}
             return
         p2c_r, p2c_w = os.pipe()
         c2p_r, c2p_w = os.pipe()
@@ -163,6 +202,29 @@ class Reference:
         if msg != "ready":
             raise RuntimeError("zygote failed to start: %r" % (msg,))
 
+    def _recv(self, req):
+        """Read the answer to `req`.  If library code read environment variables while answering, the request is evaluated
+        again with each of them flipped; an outcome that follows the variable replaces the answer (the caller compares it
+        with the same-environment reference and reports the difference)."""
+        out = _read_msg(self.rfd)
+        if out and out[0] == "sensed":
+            import simenv
+            sensed, out = out[1], out[2]
+            for k, cur in sensed:
+                self.env_keys_sensed[k] = self.env_keys_sensed.get(k, 0) + 1
+            for k, cur in sensed:
+                if k in self.import_env:
+                    continue
+                self.env_flips += 1
+                _write_msg(self.wfd, dict(req, env={k: simenv.flipped(cur)}))
+                alt = _read_msg(self.rfd)
+                if alt and alt[0] == "sensed":
+                    alt = alt[2]
+                if alt != out:
+                    self.env_dependent.append([k, simenv.flipped(cur)])
+                    return alt
+        return out
+
     def __call__(self, ddl, flags=None, run=None):
         req = {"ddl": ddl, "flags": flags or {}, "run": run or {}}
         key = core.cjson(req)
@@ -173,7 +235,7 @@ class Reference:
         if self.cwd:
             req["cwd"] = self.cwd
         _write_msg(self.wfd, req)
-        out = _read_msg(self.rfd)
+        out = self._recv(req)
         if out and out[0] in ("crash", "harness-exc"):
             raise RuntimeError("reference evaluation failed: %r" % (out,))
         self.memo[key] = out
@@ -192,13 +254,13 @@ class Reference:
         if self.cwd:
             req["cwd"] = self.cwd
         _write_msg(self.wfd, req)
-        return ("sent", key)
+        return ("sent", key, req)
 
     def finish(self, token):
-        kind, key = token
+        kind, key = token[0], token[1]
         if kind == "hit":
             return self.memo[key]
-        out = _read_msg(self.rfd)
+        out = self._recv(token[2])
         if out and out[0] in ("crash", "harness-exc"):
             raise RuntimeError("reference evaluation failed: %r" % (out,))
         self.memo[key] = out
@@ -213,7 +275,7 @@ class Reference:
             req["cwd"] = self.cwd
         self.calls += 1
         _write_msg(self.wfd, req)
-        out = _read_msg(self.rfd)
+        out = self._recv(req)
         if out and out[0] in ("crash", "harness-exc"):
             raise RuntimeError("reference evaluation failed: %r" % (out,))
         return out
@@ -230,7 +292,7 @@ class Reference:
         if self.cwd:
             req["cwd"] = self.cwd
         _write_msg(self.wfd, req)
-        out = _read_msg(self.rfd)
+        out = self._recv(req)
         if out and out[0] in ("crash", "harness-exc"):
             raise RuntimeError("reference evaluation failed: %r" % (out,))
         out = out[1] if out and out[0] == "history" else out
@@ -261,4 +323,4 @@ if __name__ == "__main__":
         for _fd in (0, 1, 2):
             os.dup2(_dn, _fd)
         sys.path.insert(0, os.path.dirname(os.path.abspath(__file__)))
-        _zygote_main(sys.argv[2], _r, _w)
+        _zygote_main(sys.argv[2], _r, _w, other=True)
